@@ -93,6 +93,7 @@ class IsaliveOracle(Contract):
 
 class WaitReadable(Contract):
     """select_ignore_interrupts([child_fd, STDIN], [], []) / poll_ignore_interrupts([child_fd, STDIN]): any subset"""
+    name = 'pexpect.utils.select_ignore_interrupts'
     only_in = CTX
     params = ['fds', 'w', 'x', 'timeout']
     defaults = {'w': None, 'x': None, 'timeout': None}
@@ -103,7 +104,7 @@ class WaitReadable(Contract):
         for lab, pick in (('none', ()), ('child', (0,)), ('user', (1,)), ('both', (0, 1))):
             def mk(interp, pre, pick=pick):
                 from pyvc.values import VTuple, HObj
-                items = interp.concrete_items(pre.args_v['fds'])
+                items = interp.concrete_items(pre.args_v['fds'] if 'fds' in pre.args_v else pre.args_v['iwtd'])
                 lst = lambda xs: interp.ctx.alloc(HObj('list', 'list', {'items': list(xs)}, closed=True))
                 r = lst([items[k] for k in pick])
                 return VTuple([r, lst([]), lst([])]) if self.as_tuple else r
@@ -112,6 +113,7 @@ class WaitReadable(Contract):
 
 
 class WaitReadablePoll(WaitReadable):
+    name = 'pexpect.utils.poll_ignore_interrupts'
     params = ['fds', 'timeout']
     defaults = {'timeout': None}
     as_tuple = False
@@ -130,9 +132,16 @@ class InteractOsRead(Contract):
         g = v.g
         v.cons = True
         if v.label == 'keys':
+            # what C15 says must reach the child of this read: all of it (through input_filter), up to the escape
+            typed = filtered(g['ifilter'], v.result)
+            deliver, seen = up_to_escape(typed, g['escchar'])
+            g['want_cin'] = cat(g['want_cin'], deliver)
+            g['esc'] = seen
             return
         if v.label == 'data':
             v.chunk, v.cons = kernel_read(v, v.old.n, 'data')
+            # ... and what must reach the user: this chunk (through output_filter)
+            g['want_uout'] = cat(g['want_uout'], filtered(g['ofilter'], v.chunk))
         elif v.label in ('empty', 'EIO'):
             _, v.cons = kernel_read(v, v.old.n, 'eof')
         if v.raised is not None:
@@ -197,12 +206,15 @@ class LogOracle(Contract):
     only_in = CTX
     params = ['self', 's', 'direction']
 
-    def requires(self, v):
+    def outcomes(self, v):
         from pyvc.values import VStr
         k = 'b' if v.a.self.encoding is None else 's'
         a = v.args_v.get('s')
         any_log = any(getattr(v.a.self, f) is not None for f in LOGS)
-        return [('log-files-get-the-string-type-of-the-api', (not any_log) or (isinstance(a, VStr) and a.kind == k))]
+        if any_log and not (isinstance(a, VStr) and a.kind == k):
+            # a log file of a unicode-mode object takes str: file.write(bytes) raises TypeError
+            return [Raises('TypeError')]
+        return [Ret(T.NoneT)]
 
 
 # ---- __interact_writen --------------------------------------------------------------------------------------------
@@ -273,7 +285,7 @@ class CopyLoop(LoopSpec):
         return {'data': T.Bytes, 'i': T.Int}
 
     ghost = {'uout': T.Bytes, 'want_uout': T.Bytes, 'cin': T.Bytes, 'want_cin': T.Bytes, 'Kos': T.Bytes, 'peer': T.Int,
-             'rawin': T.Bytes}
+             'rawin': T.Bytes, 'esc': T.Bool}
 
     def ghost_extra(self, v):
         return {}
@@ -437,8 +449,8 @@ class Interact(Contract):
 
 def register(reg):
     reg.add(IsaliveOracle)
-    reg.add_extern('pexpect.utils.select_ignore_interrupts', WaitReadable)
-    reg.add_extern('pexpect.utils.poll_ignore_interrupts', WaitReadablePoll)
+    reg.add(WaitReadable)
+    reg.add(WaitReadablePoll)
     reg.add_extern('os.read', InteractOsRead)
     reg.add_extern('os.write', InteractOsWrite)
     reg.add_extern('opaque.__call__', FilterCall)
